@@ -495,7 +495,7 @@ func runC18(c *Ctx, r *Report) {
 		}
 		return true
 	})
-	r.Doc("R-C18.12", "a fixed-size key or nonce array is filled completely: the loop that copies into it covers every index (a byte left at zero makes keys that differ only there interchangeable)")
+	r.Doc("R-C18.12", "a fixed-size key or nonce buffer (an array, or a slice made with a constant length) is filled completely: the loop that copies into it covers every index (a byte left at zero makes keys that differ only there interchangeable and takes entropy out of the nonce)")
 	{
 		nfill := 0
 		for _, fn := range p.Fns {
@@ -523,6 +523,17 @@ func runC18(c *Ctx, r *Report) {
 						if at, ok := p.TypeOf(fn, ix.X).Underlying().(*types.Array); ok {
 							if id, ok := ast.Unparen(ix.Index).(*ast.Ident); ok {
 								arrLen, ivar = at.Len(), p.ObjOf(fn, id)
+							}
+						} else if xid, ok := ast.Unparen(ix.X).(*ast.Ident); ok {
+							// a buffer made with a constant length: `nonce := make([]byte, N)`
+							if def := p.SoleDef(fn, p.ObjOf(fn, xid)); def != nil {
+								if mk, ok := ast.Unparen(def).(*ast.CallExpr); ok && p.Builtin(fn, mk) == "make" && len(mk.Args) == 2 {
+									if n, isC := p.constInt(fn, mk.Args[1]); isC {
+										if id, ok := ast.Unparen(ix.Index).(*ast.Ident); ok {
+											arrLen, ivar = n, p.ObjOf(fn, id)
+										}
+									}
+								}
 							}
 						}
 					}
